@@ -44,7 +44,10 @@ def start_states():
     # the function target is a method (Class.method); another function may follow the class
     method = [{"config": "method", "class": c, "argparse_function": a, "function": f} for c in ("v1", "missing") for a in ("v1", "missing")
               for f in ("missing", "class_without_method", "method_v1", "method_v1+tail", "method_v2+tail")]
-    return plain + shared + method
+    # textual surroundings of one file (the others hold v1 / are missing)
+    layout = [dict({k: ("%s@%s" % (b, lay) if k == kk else o) for k in pj.KINDS}, config="plain")
+              for kk in pj.KINDS for b in ("nodef", "v2") for lay in pj.LAYOUTS for o in ("v1", "missing")]
+    return plain + shared + method + layout
 
 
 def setup_project(root, start):
